@@ -24,6 +24,18 @@ checks = {
    technique="deterministic simulation with fault injection: seeded schedules of concurrent callers, foreign writers, request faults and caller crashes over the real Consul client path; history checked for uniqueness and (porcupine) linearizability against a fetch-and-increase register",
    text="Seeded exploration of the real NewRunNumber path (apricot service, ConsulSource.GetNextUInt32, hashicorp consul api client) of several cores sharing one simulated Consul: concurrent callers, atomic foreign writers, request faults (500, connection error, response lost after apply, slow), core death before/after a request was applied, restarts. Oracles: successful numbers pairwise distinct, linearizable against a strictly increasing register (porcupine), every success backed by an applied successful CAS, calls of live cores return.",
    note="Consul is a model (linearizable consistent reads, atomic cas) behind an http.RoundTripper; the START_ACTIVITY side of the property (start cancelled when no number can be had) is exercised by the environment harness."),
+ "C01": dict(harness="henv", design="§6 C01",
+   text='Seeded exploration of one real Environment (FSM, TryTransition, hooks) under 1-3 concurrent callers issuing legal and illegal requests with injected task and hook outcomes; oracles: transitions never overlap (brackets of the events published under the transition lock), reference FSM over the serialisation order (legal/illegal, outcome, resulting state), illegal requests run no hook and no task transition, only documented states are shown, every request returns (a self-deadlock is a violation).',
+   note='One real Environment with an injected task-transition body (verif hook) and a probe plugin registered through the public integration API; callers follow the API rule (GO_ERROR after a failed request, forced ERROR if refused) as core/server.go does; teardown and the RPC layer are outside this harness; hook tasks are not generated (calls only).'),
+ "C08": dict(harness="henv", design="§6 C08",
+   text='Same simulation; oracles over sequence-numbered probe records: each hook runs exactly when its trigger point is reached and never before it, weights ascend, an awaited call has returned before anything later starts (also across transitions), hooks of one trigger expression are started together (probes block until all have started), calls still pending at the end are exactly those whose await point was not reached.',
+   note='One real Environment with an injected task-transition body (verif hook) and a probe plugin registered through the public integration API; callers follow the API rule (GO_ERROR after a failed request, forced ERROR if refused) as core/server.go does; teardown and the RPC layer are outside this harness; hook tasks are not generated (calls only).'),
+ "C09": dict(harness="henv", design="§6 C09",
+   text='Same simulation with failing hooks (critical or not, several at once); oracles: critical failure at before_/leave_ cancels (state kept, nothing later runs, no task transition), at enter_/after_ is reported with the destination kept, non-critical failures change nothing, the error names the failure, simultaneous failures do not corrupt the core (R4 write windows detect concurrent map writes).',
+   note='One real Environment with an injected task-transition body (verif hook) and a probe plugin registered through the public integration API; callers follow the API rule (GO_ERROR after a failed request, forced ERROR if refused) as core/server.go does; teardown and the RPC layer are outside this harness; hook tasks are not generated (calls only).'),
+ "C10": dict(harness="henv", design="§6 C10",
+   text='Same simulation biased towards START/STOP/GO_ERROR sequences; probes snapshot run_number and the four run timestamps; oracles: number absent before and present from the non-negative before_START_ACTIVITY hooks to the end of the stopping transition, constant during the run, timestamps set at most once and ordered, nothing of the previous run visible at the start of the next, end timestamps set however the run ended.',
+   note='One real Environment with an injected task-transition body (verif hook) and a probe plugin registered through the public integration API; callers follow the API rule (GO_ERROR after a failed request, forced ERROR if refused) as core/server.go does; teardown and the RPC layer are outside this harness; hook tasks are not generated (calls only).'),
 }
 
 na = {
